@@ -263,7 +263,12 @@ def nameflow(ctx, R="R-C14-nameflow"):
         fev2 = SymEval(prog, fwd).run()
         for _, v_, rn in fev2.returns:
             if v_.op == "call" and len(v_.args) >= 2 and str(v_.args[0]).endswith("pytorch_stft_frame_computer"):
-                a0 = v_.args[1]
+                kw0 = [a_ for a_ in v_.args[1:] if a_.op == "call" and a_.args[0] == "kw:" + fn.params[0]]
+                pos0 = [a_ for a_ in v_.args[1:] if not (a_.op == "call" and str(a_.args[0]).startswith("kw:"))]
+                a0 = kw0[0].args[1] if kw0 else (pos0[0] if pos0 else None)
+                if a0 is None:
+                    ctx.error(R, "cannot decide what forward hands to the functional port: %s" % S.show(v_)[:160])
+                    continue
                 if a0 == S.sym(fwd.params[1]):
                     ctx.ok(R, fwd.loc(rn), "forward hands its input to the functional port unchanged")
                 else:
